@@ -33,6 +33,23 @@ def m10(cfg, b: float = 1.0) -> None: ...
 def m11(cfg, a, b, *, k, **rest) -> str: ...
 
 
+def _local_class_method():
+    class LocalResult:        # a class defined inside a function body
+        pass
+
+    def uses_local(cfg, item: LocalResult) -> LocalResult: ...
+    return uses_local, LocalResult
+
+
+_USES_LOCAL, _LOCAL_CLS = _local_class_method()
+
+
+def _local_number_type():
+    class Celsius(float):
+        pass
+    return Celsius
+
+
 def _same_name(kind: int):
     """different functions that share module and __qualname__ (re-used name in one scope)"""
     if kind == 0:
@@ -45,7 +62,7 @@ def _same_name(kind: int):
 
 
 METHODS = (m0, m1, m2, m3, m4, m5, m6, m7, m8, m9, m10, m11, _same_name(0), _same_name(1), _same_name(2),
-           lambda cfg, x: x, lambda cfg, *, y=2: y)
+           lambda cfg, x: x, lambda cfg, *, y=2: y, _USES_LOCAL)
 NMETH = len(METHODS)
 
 
@@ -80,6 +97,9 @@ def _stub(f_scalars: bool, f_containers: bool, f_nested: bool, f_ct: bool, f_vir
     schema.always = IntField(default=1)
     persistent.append("always")
     if f_scalars:
+        from cincoconfig.fields.number_field import NumberField
+        schema.loc = NumberField(_local_number_type())     # storage type = a class defined inside a function
+        persistent.append("loc")
         schema.s = StringField()
         schema.f = FloatField()
         schema.b = BoolField()
@@ -171,7 +191,7 @@ def _stub(f_scalars: bool, f_containers: bool, f_nested: bool, f_ct: bool, f_vir
 
 
 WHAT = ("symbolic schema shape (presence of scalar / container / nested schema / config type / virtual / "
-        "secure+challenge fields, up to two instance methods drawn from 17 functions (12 signature shapes, three functions sharing one qualified name, two lambdas), target = Schema | Config "
+        "secure+challenge fields, up to two instance methods drawn from 18 functions (12 signature shapes, three functions sharing one qualified name, two lambdas, one annotated with a function-local class), target = Schema | Config "
         "| ConfigType): the stub parses, declares one class with an annotated attribute per field, __init__ takes "
         "exactly the persistent fields, one method per instance method with the same parameter names and kinds; "
         "nothing on stdout; schema and configuration unchanged")
@@ -194,10 +214,10 @@ def _mk_fields(target: int):
 def _mk_methods(mi: int):
     @obligation(prop="C20", name="stub_methods_m%d" % mi, group="stub_methods", sites=("stub",), encodes=ENC,
                 budget={"quick": 240, "thorough": 600},
-                what=WHAT + " [first method shape %d, second method any of 17 or none, all three targets]" % mi)
+                what=WHAT + " [first method shape %d, second method any of 18 or none, all three targets]" % mi)
     def ob(mj: int, target: int, f_virtual: bool) -> bool:
         """
-        pre: -1 <= mj < 17 and 0 <= target <= 2
+        pre: -1 <= mj < 18 and 0 <= target <= 2
         post: _
         """
         return _stub(False, False, False, False, f_virtual, False, mi, mj, target)
